@@ -447,4 +447,9 @@ func verif_httpPlugin_Handle(p *httpPlugin, ctx context.Context, op string, cont
 	}
 	r := verif.NthArg[*Request]("httpPlugin).do", 0, 2)
 	verif.Ensures(r.Op == op && r.Content == content, "sends_operation_and_content")
+	// "each plugin sees the previous plugin's edit": the answer is decoded into a
+	// new, empty value of the content's type - reflect.New and nothing else - so
+	// what a plugin removed from the content stays removed; nothing of what was
+	// sent is written into the value before the answer is decoded over it
+	verif.Ensures(verif.CallCount("reflect.New") == 1 && !verif.Called("reflect.Value).Set") && !verif.Called("reflect.Copy") && !verif.Called("reflect.Indirect"), "answer_decoded_into_an_empty_value")
 }
